@@ -45,7 +45,7 @@ def alphabet(kind="full", init_enum=False):
            # own parameter list is a visible typedef name ('int * ( B )')
            # lead: statements that declare nothing visible afterwards, between
            # the declarations (their parsing looks ahead / opens scopes of its own)
-           "stmt": PER_NAME_CORE,
+           "stmt": PER_NAME_CORE + ("for_decl", "for_decl_blk"),
            "abs": PER_NAME_CORE + ("open_abs", "open_abs2")}[kind.partition("@")[0]]
     evs = [(k, n) for k in per for n in NAMES]
     evs += [(k, None) for k in (STRUCTURAL if kind != "core" else ("open", "close"))]
@@ -191,6 +191,12 @@ def apply(st, ev, typedef_labels=False):
         if in_function(st) or not is_typedef(st, _other(name)):
             return None
         return (scopes + (("func", ((name, "ordinary", "param"),), ()),), (), linkage)
+    if k in ("for_decl", "for_decl_blk"):
+        # for (int N = 0;;) ...   the loop is a block of its own (C99 6.8.5p5):
+        # N hides an outer typedef inside the loop only
+        if not in_function(st):
+            return None
+        return st
     if k in NOOP_STATEMENTS:     # a statement; its own declarations end with it
         if not in_function(st):
             return None
@@ -255,6 +261,8 @@ def text(ev, idx):
         "open_kr": "int g%d ( %s , kk%d ) int %s ; char kk%d ; {" % (idx, n, idx, n, idx),
         "open_abs": "void g%d ( int %s , int * ( %s ) ) {" % (idx, n, _other(n)),
         "open_abs2": "void g%d ( int ( * ( %s ) ) , int * const ( ( %s ) ) , int %s ) {" % (idx, _other(n), _other(n), n),
+        "for_decl": "for ( int %s = 0 ; ; ) if ( %s ) break ;" % (n, n),
+        "for_decl_blk": "for ( int * %s = 0 , k%d ; ; ) { %s ++ ; }" % (n, idx, n),
         "open": "{",
         "close": "}",
         "init": "int z%d [ ] = { 0 } ;" % idx,
